@@ -24,11 +24,62 @@ Proof.
   unfold entry_to_expr. cbn [fst snd]. destruct c as [|n|pp n]; reflexivity.
 Qed.
 
-Lemma assets_expr_reads_back a :
-  wf_classes a = true -> exists a', expr_assets (assets_to_exprs (sorted_entries a)) = Ok a' /\ a' ≈ a.
+(** the checked sum over the entries of a value: every partial sum is a part of the value *)
+Lemma all_in_i128_spec a : all_in_i128 a = true <-> forall k v, a !! k = Some v -> in_i128 v = true.
 Proof.
-  intros Hwf. unfold expr_assets. rewrite to_asset_exprs_of_entries.
-  apply exprs_roundtrip; [exact Hwf|apply sorted_entries_perm].
+  unfold all_in_i128. rewrite forallb_forall. split.
+  - intros H k v Hl. apply (H (k, v)). apply elem_of_list_In. apply elem_of_map_to_list. exact Hl.
+  - intros H [k v] Hin. apply elem_of_list_In in Hin. apply elem_of_map_to_list in Hin. cbn. eapply H; exact Hin.
+Qed.
+Lemma all_in_i128_get0 a : (forall k, in_i128 (get0 a k) = true) -> all_in_i128 a = true.
+Proof. intros H. apply all_in_i128_spec. intros k v Hl. specialize (H k). unfold get0 in H. rewrite Hl in H. exact H. Qed.
+Lemma in_i128_get0 a k : all_in_i128 a = true -> in_i128 (get0 a k) = true.
+Proof.
+  intros H. unfold get0. destruct (a !! k) as [v|] eqn:E; cbn; [|reflexivity].
+  apply all_in_i128_spec with (k := k) (v := v) in H; assumption.
+Qed.
+
+Lemma expr_assets_from_entries acc l :
+  forallb (fun kv => wf_class kv.1) l = true -> NoDup l.*1 ->
+  (forall k, k ∈ l.*1 -> get0 acc k = 0) ->
+  (forall k, in_i128 (get0 acc k) = true) -> (forall kv, kv ∈ l -> in_i128 kv.2 = true) ->
+  exists a', expr_assets_from acc (to_exprs_ord l) = Ok a' /\
+             forall k, get0 a' k = get0 acc k + entries_sum l k.
+Proof.
+  revert acc. induction l as [|[c z] l IH]; intros acc Hwf Hnd Hfresh Hacc Hl; cbn [to_exprs_ord map expr_assets_from].
+  - exists acc. split; [reflexivity|]. intros k. cbn. lia.
+  - cbn in Hwf. apply andb_true_iff in Hwf as [Hc Hwf]. cbn in Hnd. apply NoDup_cons in Hnd as [Hnotin Hnd].
+    unfold entry_to_expr at 1. cbn [snd]. unfold entry_to_expr, of_expr. cbn [fst snd obind].
+    rewrite from_asset_of_class by exact Hc.
+    assert (Hsum : forall k, in_i128 (get0 (a_add_raw acc {[ c := z ]}) k) = true).
+    { intros k. rewrite get0_add_raw, get0_singleton. destruct (decide (c = k)) as [<-|Hne].
+      - rewrite (Hfresh c) by (cbn; left). replace (0 + z) with z by lia. apply (Hl (c, z)). left.
+      - replace (get0 acc k + 0) with (get0 acc k) by lia. apply Hacc. }
+    unfold chk_assets. rewrite (all_in_i128_get0 _ Hsum). cbn [obind].
+    destruct (IH (strip (a_add_raw acc {[ c := z ]})) Hwf Hnd) as [a' [E Hget]].
+    + intros k Hk. rewrite get0_strip, get0_add_raw, get0_singleton.
+      destruct (decide (c = k)) as [<-|Hne]; [contradiction|]. rewrite (Hfresh k) by (cbn; right; exact Hk). lia.
+    + intros k. rewrite get0_strip. apply Hsum.
+    + intros kv Hkv. apply Hl. right. exact Hkv.
+    + exists a'. split; [exact E|]. intros k. rewrite Hget, get0_strip, get0_add_raw, get0_singleton.
+      unfold entries_sum. cbn. lia.
+Qed.
+
+Lemma assets_expr_reads_back a :
+  wf_classes a = true -> all_in_i128 a = true ->
+  exists a', expr_assets (assets_to_exprs (sorted_entries a)) = Ok a' /\ a' ≈ a.
+Proof.
+  intros Hwf Hin. unfold expr_assets. rewrite to_asset_exprs_of_entries.
+  pose proof (sorted_entries_perm a) as Hp.
+  destruct (expr_assets_from_entries a_empty (sorted_entries a)) as [a' [E Hget]].
+  - apply forallb_forall. intros x Hx. unfold wf_classes in Hwf. rewrite forallb_forall in Hwf. apply Hwf.
+    apply elem_of_list_In. rewrite <- Hp. apply elem_of_list_In. exact Hx.
+  - rewrite Hp. apply NoDup_fst_map_to_list.
+  - intros k _. apply get0_empty.
+  - intros k. rewrite get0_empty. reflexivity.
+  - intros [k v] Hkv. rewrite Hp in Hkv. apply elem_of_map_to_list in Hkv. cbn.
+    apply all_in_i128_spec with (k := k) (v := v) in Hin; assumption.
+  - exists a'. split; [exact E|]. intros k. rewrite Hget, get0_empty, (entries_sum_map a _ k Hp). lia.
 Qed.
 
 (** * classes stay in normal form *)
@@ -65,24 +116,21 @@ Lemma wf_from_asset po no z : wf_classes (from_asset po no z) = true.
 Proof.
   destruct po as [[|x pp]|], no as [[|y n]|]; cbn; try reflexivity; apply wf_singleton; reflexivity.
 Qed.
-Lemma wf_of_exprs_from acc l a : wf_classes acc = true -> of_exprs_from acc l = Ok a -> wf_classes a = true.
+Lemma wf_expr_assets_from acc l a : wf_classes acc = true -> expr_assets_from acc l = Ok a -> wf_classes a = true.
 Proof.
-  revert acc. induction l as [|[[pc nc] amt] l IH]; intros acc Hacc H; cbn in H.
+  revert acc. induction l as [|[[pc nc] amt] l IH]; intros acc Hacc H; cbn [expr_assets_from snd] in H.
   - injection H as <-. exact Hacc.
-  - destruct amt; try discriminate. cbn [obind] in H. eapply IH; [|exact H]. apply wf_add; [exact Hacc|apply wf_from_asset].
+  - destruct amt; try discriminate. cbn [of_expr obind] in H. unfold chk_assets in H.
+    destruct (all_in_i128 _); [|discriminate]. cbn [obind] in H.
+    eapply IH; [|exact H]. apply wf_strip. apply wf_add_raw; [exact Hacc|apply wf_from_asset].
 Qed.
 Lemma wf_expr_assets xs a : expr_assets xs = Ok a -> wf_classes a = true.
-Proof. unfold expr_assets, of_exprs. apply wf_of_exprs_from. apply wf_empty. Qed.
+Proof. unfold expr_assets. apply wf_expr_assets_from. apply wf_empty. Qed.
 
-(** * the range check is a check of the value *)
-Lemma all_in_i128_spec a : all_in_i128 a = true <-> forall k v, a !! k = Some v -> in_i128 v = true.
+Lemma all_in_i128_strip a : all_in_i128 a = true -> all_in_i128 (strip a) = true.
 Proof.
-  unfold all_in_i128. rewrite forallb_forall. split.
-  - intros H k v Hl. apply (H (k, v)). apply elem_of_list_In. apply elem_of_map_to_list. exact Hl.
-  - intros H [k v] Hin. apply elem_of_list_In in Hin. apply elem_of_map_to_list in Hin. cbn. eapply H; exact Hin.
+  rewrite !all_in_i128_spec. intros H k v Hl. unfold strip in Hl. apply map_filter_lookup_Some in Hl as [Hl _]. eapply H; exact Hl.
 Qed.
-Lemma all_in_i128_get0 a : (forall k, in_i128 (get0 a k) = true) -> all_in_i128 a = true.
-Proof. intros H. apply all_in_i128_spec. intros k v Hl. specialize (H k). unfold get0 in H. rewrite Hl in H. exact H. Qed.
 
 (** * the fragment and its denotation *)
 Section AssetsPipeline.
@@ -103,7 +151,7 @@ Inductive aden : sexpr -> assets -> Prop :=
 | AD_call n pol nm ie v pb nb r :
     not_builtin n ->
     resolve p t n = Some (SymAsset pol nm) -> lit_part pol = Some pb -> lit_name nm = Some nb ->
-    ival ie = Some v -> aden (SCall n (ie :: r)) {[ class_of_bytes pb nb := v ]}
+    ival ie = Some v -> in_i128 v = true -> aden (SCall n (ie :: r)) {[ class_of_bytes pb nb := v ]}
 | AD_add a b x y :
     aden a x -> aden b y -> (forall k, in_i128 (get0 x k + get0 y k) = true) -> aden (SAddE a b) (a_add x y)
 | AD_sub a b x y :
@@ -122,13 +170,12 @@ Fixpoint adepth (e : sexpr) : nat :=
 
 (** the value of one constructor call, as the back-conversion computes it *)
 Lemma leaf_value pol nm pb nb pe ne v :
-  lit_part pol = Some pb -> lit_name nm = Some nb ->
+  lit_part pol = Some pb -> lit_name nm = Some nb -> in_i128 v = true ->
   pe = match pol with SUnit => ENone | SHex b => EBytes b | _ => ENone end ->
   ne = match nm with SUnit => ENone | SHex b => EBytes b | SStr s => EString s | _ => ENone end ->
   exists a', expr_assets [(pe, ne, ENumber v)] = Ok a' /\ a' ≈ {[ class_of_bytes pb nb := v ]}.
 Proof.
-  intros Hp Hn -> ->. unfold expr_assets, of_exprs, to_asset_exprs. cbn [map of_exprs_from fst snd of_expr obind].
-  eexists. split; [reflexivity|].
+  intros Hp Hn Hv -> ->. unfold expr_assets, to_asset_exprs. cbn [map expr_assets_from fst snd to_acomp of_expr obind].
   assert (Hc : from_asset (expect_policy (to_acomp match pol with SUnit => ENone | SHex b => EBytes b | _ => ENone end))
                           (expect_name (to_acomp match nm with SUnit => ENone | SHex b => EBytes b | SStr s => EString s | _ => ENone end)) v
                = {[ class_of_bytes pb nb := v ]}).
@@ -139,7 +186,12 @@ Proof.
              | |- context [from_named_asset ?l _] => is_var l; destruct l; cbn [from_named_asset]
              end;
       reflexivity. }
-  cbn [to_acomp] in Hc |- *. rewrite Hc. apply add_empty_l.
+  cbn [to_acomp] in Hc |- *. rewrite Hc.
+  assert (Hsum : all_in_i128 (a_add_raw a_empty {[ class_of_bytes pb nb := v ]}) = true).
+  { apply all_in_i128_get0. intros k. rewrite get0_add_raw, get0_empty, get0_singleton.
+    destruct (decide (class_of_bytes pb nb = k)); [replace (0 + v) with v by lia; exact Hv|reflexivity]. }
+  unfold chk_assets. rewrite Hsum. cbn [obind expr_assets_from]. eexists. split; [reflexivity|].
+  apply add_empty_l.
 Qed.
 
 Lemma is_constant_entries ord : is_constant (EAssets (assets_to_exprs ord)) = true.
@@ -156,10 +208,10 @@ Definition good (pick f : nat) (ir : expr) (a : assets) : Prop :=
   exists xs a', reduce pick f ir = Ok (EAssets xs) /\ is_constant (EAssets xs) = true /\ expr_assets xs = Ok a' /\ a' ≈ a.
 
 Lemma good_result a0 a :
-  wf_classes a0 = true -> a0 ≈ a ->
+  wf_classes a0 = true -> all_in_i128 a0 = true -> a0 ≈ a ->
   exists xs a', assets_expr a0 = EAssets xs /\ is_constant (EAssets xs) = true /\ expr_assets xs = Ok a' /\ a' ≈ a.
 Proof.
-  intros Hwf He. destruct (assets_expr_reads_back a0 Hwf) as [a' [E Ha']].
+  intros Hwf Hin He. destruct (assets_expr_reads_back a0 Hwf Hin) as [a' [E Ha']].
   exists (assets_to_exprs (sorted_entries a0)), a'. split; [reflexivity|]. split; [apply is_constant_entries|].
   split; [exact E|]. intros k. rewrite (Ha' k). apply He.
 Qed.
@@ -167,7 +219,7 @@ Qed.
 Theorem assets_pipeline : forall e a, aden e a -> forall pick f d c, (adepth e <= f)%nat ->
   exists ir, lower_expr p t f (S d) c e = Ok ir /\ good pick f ir a.
 Proof.
-  induction 1 as [n pol nm ie v pb nb r Hnb Hres Hp Hn Hv
+  induction 1 as [n pol nm ie v pb nb r Hnb Hres Hp Hn Hv Hrange
                  | ea eb x y _ IHa _ IHb Hov
                  | ea eb x y _ IHa _ IHb Hov1 Hov2
                  | ea x _ IHa Hov]; intros pick f d c Hf.
@@ -186,7 +238,7 @@ Proof.
     rewrite Hpe. cbn [obind]. rewrite Hne. cbn [obind].
     rewrite (lower_int p t f (S d) c ie v Hv) by lia. cbn [obind].
     eexists. split; [reflexivity|].
-    destruct (leaf_value pol nm pb nb pe ne v Hp Hn eq_refl eq_refl) as [a' [E Ha']].
+    destruct (leaf_value pol nm pb nb pe ne v Hp Hn Hrange eq_refl eq_refl) as [a' [E Ha']].
     exists [(pe, ne, ENumber v)], a'. split.
     + cbn [reduce]. unfold composite_reduce. cbn [mapM_children omapM3 fst snd].
       assert (R1 : reduce pick f pe = Ok pe).
@@ -210,6 +262,7 @@ Proof.
     { apply all_in_i128_get0. intros k. rewrite get0_add_raw, (Qa k), (Qb k). apply Hov. }
     destruct (good_result (strip (a_add_raw ax ay)) (a_add x y)) as (zs & az & Ez & Cz & Rz & Qz).
     { apply wf_strip. apply wf_add_raw; eapply wf_expr_assets; eassumption. }
+    { apply all_in_i128_strip. exact Hchk. }
     { intros k. rewrite get0_strip, get0_add_raw, get0_add, (Qa k), (Qb k). reflexivity. }
     exists zs, az. split; [|split; [exact Cz|split; [exact Rz|exact Qz]]].
     cbn [reduce]. unfold composite_reduce. cbn [mapM_children]. rewrite Ra. cbn [obind]. rewrite Rb. cbn [obind].
@@ -225,12 +278,14 @@ Proof.
     { apply all_in_i128_get0. intros k. rewrite get0_neg, (Qb k). apply Hov1. }
     destruct (good_result (a_neg ay) (a_neg y)) as (ns & an & En & Cn & Rn & Qn).
     { apply wf_neg. eapply wf_expr_assets; exact Eb. }
+    { exact Hneg. }
     { intros k. rewrite !get0_neg, (Qb k). reflexivity. }
     assert (Hchk : all_in_i128 (a_add_raw ax an) = true).
     { apply all_in_i128_get0. intros k. rewrite get0_add_raw, (Qa k), (Qn k), get0_neg.
       replace (get0 x k + - get0 y k) with (get0 x k - get0 y k) by lia. apply Hov2. }
     destruct (good_result (strip (a_add_raw ax an)) (a_sub x y)) as (zs & az & Ez & Cz & Rz & Qz).
     { apply wf_strip. apply wf_add_raw; eapply wf_expr_assets; eassumption. }
+    { apply all_in_i128_strip. exact Hchk. }
     { intros k. rewrite get0_strip, get0_add_raw, get0_sub, (Qa k), (Qn k), get0_neg. lia. }
     exists zs, az. split; [|split; [exact Cz|split; [exact Rz|exact Qz]]].
     cbn [reduce]. unfold composite_reduce. cbn [mapM_children]. rewrite Ra. cbn [obind]. rewrite Rb. cbn [obind].
@@ -246,6 +301,7 @@ Proof.
     { apply all_in_i128_get0. intros k. rewrite get0_neg, (Qa k). apply Hov. }
     destruct (good_result (a_neg ax) (a_neg x)) as (ns & an & En & Cn & Rn & Qn).
     { apply wf_neg. eapply wf_expr_assets; exact Ea. }
+    { exact Hneg. }
     { intros k. rewrite !get0_neg, (Qa k). reflexivity. }
     exists ns, an. split; [|split; [exact Cn|split; [exact Rn|exact Qn]]].
     cbn [reduce]. unfold composite_reduce. cbn [mapM_children]. rewrite Ra. cbn [obind].
@@ -257,7 +313,7 @@ Qed.
 Theorem assets_denotation : forall e a, aden e a -> forall env f c, (adepth e <= f)%nat ->
   eval p t env f c e = Some (VAssets a).
 Proof.
-  induction 1 as [n pol nm ie v pb nb r Hnb Hres Hp Hn Hv
+  induction 1 as [n pol nm ie v pb nb r Hnb Hres Hp Hn Hv Hrange
                  | ea eb x y _ IHa _ IHb Hov
                  | ea eb x y _ IHa _ IHb Hov1 Hov2
                  | ea x _ IHa Hov]; intros env f c Hf.
